@@ -247,6 +247,7 @@ Proof.
     + apply rf_put_nodup. apply (ic_pnodup _ _ _ _ _ I).
     + intros v o1 _. rewrite Hst, rf_assoc_put. destruct (N.eqb v u); [intros H; exact H|].
       apply (ic_cache _ _ _ _ _ I v o1). exact Hmc.
+    + intros Hc. congruence.
     + apply (ic_schema _ _ _ _ _ I).
   - (* synchronous: object file, then commit *)
     assert (Hp : h_pend h = []) by (apply (ic_sync _ _ _ _ _ I); exact Easy).
@@ -279,6 +280,7 @@ Proof.
       + rewrite Hp. constructor.
       + intros v o1 Hmc. unfold cache'. rewrite Hmc, Hst, rf_assoc_put. destruct (N.eqb v u); [intros H; exact H|].
         apply (ic_cache _ _ _ _ _ I v o1). exact Hmc.
+      + intros Hmc. unfold cache'. rewrite Hmc. apply (ic_nocache _ _ _ _ _ I). exact Hmc.
       + rewrite D1. apply (ic_schema _ _ _ _ _ I). }
     destruct (commit_ok ls h2 w1 m1 Hm2 N1 I2) as [h3 [w3 [C3 [L3 [K3 _]]]]].
     fold h2. rewrite C3. exists h3, (Ok tt), w3. split; [reflexivity|]. split; [reflexivity|].
@@ -364,6 +366,8 @@ Proof.
     + apply rf_remove_nodup. apply (ic_pnodup _ _ _ _ _ I).
     + intros v o1 Hmc. change (must_cache m1) with (must_cache m) in Hmc. unfold cache'. rewrite Hmc, Hst, rf_assoc_remove.
       destruct (N.eqb v u); [discriminate|]. apply (ic_cache _ _ _ _ _ I v o1 Hmc).
+    + intros Hmc. change (must_cache m1) with (must_cache m) in Hmc. unfold cache'. rewrite Hmc.
+      apply (ic_nocache _ _ _ _ _ I). exact Hmc.
     + rewrite Hs'. apply (ic_schema _ _ _ _ _ I).
   - unfold abs_of. rewrite !bind_bindf. cbn [m1 set_idx m_idx]. rewrite Hids, map_snd_filter.
     apply bindf_remove. exact Hst.
@@ -446,6 +450,7 @@ Proof.
         -- intros v o Hc. discriminate.
         -- constructor.
         -- intros v o Hmc Hc. rewrite Hst. apply (ic_cache _ _ _ _ _ I1 v o Hmc Hc).
+        -- apply (ic_nocache _ _ _ _ _ I1).
         -- rewrite Ds. apply (ic_schema _ _ _ _ _ I1).
       * rewrite <- Ha, <- (view_abs _ _ (h_pend h) (w_disk w) V). unfold abs_of. apply flat_bind_ext.
         intros v _. apply Hst.
@@ -544,4 +549,62 @@ Proof.
     + unfold Inv. cbn [mk s_h s_w set_fl h_mem h_cache h_pend h_fl]. rewrite Hm. splits; try assumption; reflexivity.
     + unfold abs. cbn [mk s_h s_w set_fl h_mem]. reflexivity.
     + unfold synced_h. cbn [set_fl h_mem]. rewrite Hm. intros _. exact Logic.I.
+Qed.
+
+(* ================================================================ Create on an existing collection *)
+
+Lemma flush_all_mem ls h w m h1 e w1 : h_mem h = Some m -> flush_all ls h w = (h1, e, w1) ->
+  exists m1, h_mem h1 = Some m1 /\ view_eq m m1 /\ m_idx m1 = m_idx m.
+Proof.
+  intros Hm. unfold flush_all. destruct (h_pend h) as [|p0 l0].
+  - intros H. inversion H; subst. exists m. split; [exact Hm|]. split; [apply view_eq_refl|reflexivity].
+  - destruct (db_schema_on_loaded ls h (w_disk w) m Hm) as [h2 [m2 [A [B [V [Hix _]]]]]]. rewrite A.
+    destruct (flush_list w m2 (p0 :: l0) None) as [e' w']. intros H. inversion H; subst.
+    exists m2. split; [exact B|]. split; assumption.
+Qed.
+
+(* the settings a second Create installs: cache and asynchronous writes; extension and
+   compression stay those of the collection *)
+Definition resettings (m : mem) (st : settings) : mem :=
+  {| m_set := {| st_cache := st_cache st; st_async := st_async st;
+                 st_compress := st_compress (m_set m); st_ext := st_ext (m_set m) |};
+     m_fields := m_fields m; m_shape := m_shape m; m_idx := m_idx m;
+     m_started := match st_async st with Some _ => false | None => m_started m end |}.
+
+Lemma core_resettings ls c p d m mnew :
+  InvCore ls c p d m ->
+  m_fields mnew = m_fields m -> m_shape mnew = m_shape m -> m_idx mnew = m_idx m ->
+  st_ext (m_set mnew) = st_ext (m_set m) -> st_compress (m_set mnew) = st_compress (m_set m) ->
+  (async_on m = true -> async_on mnew = false -> p = []) ->
+  InvCore ls (if must_cache mnew then c else []) p d mnew /\ abs_of p d mnew = abs_of p d m.
+Proof.
+  intros I Hf Hsh Hix Hext Hcz Hasy.
+  assert (Hfile : forall u, file_of mnew u = file_of m u).
+  { intros u. unfold file_of, suffix_of. rewrite Hext, Hcz. reflexivity. }
+  assert (Hst : forall u, stored p d mnew u = stored p d m u).
+  { intros u. unfold stored. rewrite Hfile. destruct (async_on mnew) eqn:E1; destruct (async_on m) eqn:E2; try reflexivity.
+    - rewrite (ic_sync _ _ _ _ _ I E2). reflexivity.
+    - rewrite (Hasy eq_refl eq_refl). reflexivity. }
+  split.
+  - constructor.
+    + rewrite Hf, Hix. apply (ic_oi _ _ _ _ _ I).
+    + rewrite Hf, Hix. apply (ic_uniq _ _ _ _ _ I).
+    + rewrite Hsh. apply (ic_shape _ _ _ _ _ I).
+    + intros oid u. rewrite Hix, Hf, Hst. apply (ic_agree _ _ _ _ _ I).
+    + apply (ic_dir _ _ _ _ _ I).
+    + intros f fc Hin. rewrite Hix. destruct (ic_files _ _ _ _ _ I f fc Hin) as [A [B C]].
+      split; [|split; assumption]. rewrite A. unfold suffix_of. rewrite Hext, Hcz. reflexivity.
+    + intros E1. destruct (async_on m) eqn:E2; [apply (Hasy eq_refl E1)|apply (ic_sync _ _ _ _ _ I E2)].
+    + intros u o Hu. rewrite Hix. destruct (ic_pend _ _ _ _ _ I u o Hu) as [A B]. split; [exact A|].
+      assert (E2 : async_on m = true) by (apply (ic_async_pend _ _ _ _ _ I u o Hu)).
+      destruct (async_on mnew) eqn:E1.
+      * unfold must_cache. rewrite E1, orb_true_r. exact B.
+      * rewrite (Hasy E2 eq_refl) in Hu. discriminate.
+    + apply (ic_pnodup _ _ _ _ _ I).
+    + intros u o Hmc. rewrite Hmc, Hst. intros Hc. destruct (must_cache m) eqn:E.
+      * apply (ic_cache _ _ _ _ _ I u o E Hc).
+      * rewrite (ic_nocache _ _ _ _ _ I E) in Hc. discriminate.
+    + intros Hmc. rewrite Hmc. reflexivity.
+    + rewrite Hf, Hext, Hcz. apply (ic_schema _ _ _ _ _ I).
+  - unfold abs_of. rewrite Hix. apply flat_bind_ext. intros u _. apply Hst.
 Qed.
